@@ -311,6 +311,7 @@ type hConfig struct {
 	NoTableDDL   bool // never drop / rename tables
 	NoSchema     bool // no schema changes after CREATE TABLE
 	DDLBoost     int  // multiplies the weight of schema / table operations (0 = 1)
+	Diverge      bool // end the history with two branches that diverged by two commits each
 	RowBoost     bool // more row edits relative to schema operations
 	NoPKIndex    bool // never create a secondary index on a primary-key column
 	PKByName     bool // the primary key of a table is a function of its name (a re-created table has the same key columns) and key columns are never renamed
@@ -1013,7 +1014,44 @@ func (h *hHist) build() {
 			h.AfterCommit(h, ci)
 		}
 	}
+	if h.cfg.Diverge {
+		h.diverge()
+	}
 }
+
+// diverge makes sure the history has two branches that have diverged by two commits each:
+// the writer's branch gets commits until its head has two generated ancestors, then a new
+// branch is forked two commits below the head and gets two commits of its own.
+func (h *hHist) diverge() {
+	rt := h.rt
+	one := func(tag string) {
+		ne := rapid.IntRange(1, 3).Draw(rt, tag+".nedits")
+		for e := 0; e < ne; e++ {
+			h.edit()
+		}
+		ci := h.commit()
+		if h.AfterCommit != nil {
+			h.AfterCommit(h, ci)
+		}
+	}
+	for i := 0; len(h.ancestors(h.head())) < 3; i++ {
+		one(fmt.Sprintf("div.pre%d", i))
+	}
+	fork := h.ancestors(h.head())[2]
+	h.nBr++
+	name := fmt.Sprintf("b%d", h.nBr)
+	h.exec(fmt.Sprintf("CALL dolt_checkout('-b','%s','%s')", name, h.Commits[fork].Hash))
+	h.Branch[name] = fork
+	h.Cur = name
+	h.Work = h.Commits[fork].State.clone()
+	h.op("checkout -b %s #%d", name, fork)
+	h.Class["diverged_branches"] = true
+	one("div.a")
+	one("div.b")
+}
+
+// commitDate is the --date the generator gave commit n (n >= 1).
+func hCommitDate(n int) string { return fmt.Sprintf("2021-03-04 05:06:%02d", n%60) }
 
 func (h *hHist) classes() []string {
 	var out []string
